@@ -19,7 +19,34 @@ RULE = ("seeded histories over 1..6 reads and capacity 1..3: starts beyond the c
         "reads, file ends in any order; every history is replayed on the real code; non-trivial = the history contains a cancel or fills the limiter")
 
 
+TAIL_BUDGET = {"quick": 10, "thorough": 120}
+
+
+def gen_tail(rng, budget):
+    """follows against the tail limiter whose file is truncated (the reader returns, readCommand.read re-reads the
+    file after 2 s): the slot of a follow in its retry loop, cancels placed before / inside / after the retry
+    window, other follows queueing behind it.  One script takes 5..9 s of real time (3 s truncation check, 2 s sleep)."""
+    yield "c13.tail 1 S0,S1,X0,W5500,C0,S2,W300"
+    yield "c13.tail 1 S0,X0,W3600,C0,S1,W2500,S2"
+    for _ in range(budget):
+        cap = rng.choice([1, 1, 2])
+        n = cap + rng.choice([1, 2])
+        ops = [f"S{i}" for i in range(n)]
+        victims = rng.sample(range(cap), rng.randrange(1, cap + 1))      # holders whose file is truncated
+        ops += [f"X{i}" for i in victims]
+        ops.append(f"W{rng.choice([3300, 4000, 5500, 6500])}")
+        for i in victims:
+            if rng.random() < 0.8:
+                ops.append(f"C{i}")
+        ops.append(f"S{n}")
+        ops.append(f"W{rng.choice([100, 600, 2500])}")
+        if rng.random() < 0.5:
+            ops.append(f"C{rng.randrange(n)}")
+        yield f"c13.tail {cap} {','.join(ops)}"
+
+
 def gen(rng, budget, tier):
+    yield from gen_tail(rng, TAIL_BUDGET[tier])
     # the witness of the repaired defect first
     yield "c13.script 1 S0,S1,C1,S2,F0,F2"
     for _ in range(budget):
@@ -55,11 +82,15 @@ def _oracle_for(case, s):
 
 
 def impl_view(case, impl):
+    if case.startswith("c13.tail"):
+        return impl.split(";maxreading=")[0]
     return impl
 
 
 def model_case(case, impl):
+    if case.startswith("c13.tail"):
+        return case + " " + impl.split(";maxreading=")[1] if ";maxreading=" in impl else None
     return case
 
 
-PROJ = {"c13.script": _oracle_for}
+PROJ = {"c13.script": _oracle_for, "c13.tail": lambda s: "final=" + s.split(";final=")[1] if ";final=" in s else s}
